@@ -23,7 +23,11 @@ NAMESPACE = "C09"
 
 POLY = ["Triangle", "Trapezoid", "Rectangle", "Ramp", "SShape", "ZShape", "PiShape", "Binary", "Concave"]
 TRANS = ["Gaussian", "Bell", "Sigmoid", "Cosine", "Spike", "GaussianProduct", "SigmoidDifference", "SigmoidProduct"]
-TIE_A = ["Norm."] + [f"Term.{c}.membership" for c in POLY + TRANS]
+TIE_A = (["Norm."] + [f"Term.{c}.membership" for c in POLY + TRANS]
+         + ["code:fuzzylite.operation.Op.midpoints", "code:fuzzylite.term.Activated.membership",
+            "code:fuzzylite.term.Aggregated.membership"]
+         + [f"code:fuzzylite.defuzzifier.{c}.defuzzify" for c in
+            ("Centroid", "Bisector", "SmallestOfMaximum", "MeanOfMaximum", "LargestOfMaximum")])
 RULE = ("5 integral defuzzifiers x resolution {1,2,3,5,10,100, random <= 100, in the thorough tier also random <= 1000} x aggregated sets of 0-5 "
         "activated shape terms x ranges (unit, symmetric, translated, tiny, large) x scalar and batch degrees (incl. 0, 1, "
         "NaN/inf degrees). Family 'dyadic': sample points, parameters, heights and degrees on dyadic grids (float arithmetic "
